@@ -502,6 +502,11 @@ pub fn evaluate(prog: &Program, out: &RunOut) -> (Vec<Viol>, Feat) {
     // ---- drain ------------------------------------------------------------------
     drain_preds(&a, &mut v, &mut f);
 
+    // ---- atomic-channel explainability (C03 only: the search is not free) ------------
+    if EXPLAIN.with(|e| e.get()) {
+        explain_pred(&a, out, &mut v, &mut f);
+    }
+
     // generic classes
     for o in ops.iter() {
         if o.res != Res::Skip && !o.implicit {
@@ -1580,5 +1585,59 @@ fn drain_preds(a: &Analysis, v: &mut Vec<Viol>, f: &mut Feat) {
                 });
             }
         }
+    }
+}
+
+thread_local! {
+    pub static EXPLAIN: std::cell::Cell<bool> = const { std::cell::Cell::new(false) };
+}
+
+fn explain_pred(a: &Analysis, out: &RunOut, v: &mut Vec<Viol>, f: &mut Feat) {
+    use crate::explain::{explain, Verdict};
+    if !matches!(out.outcome.end, rt::End::Complete) || a.prog.pay_is_zst() || a.ops.is_empty() {
+        f.add("explain_skipped", 1);
+        return;
+    }
+    let cap = match a.prog.cap {
+        Cap::N(n) => Some(n),
+        Cap::Unbounded => None,
+    };
+    let busy = |i: usize| -> bool { i < a.on.len() && a.rt_busy(i) };
+    let rescue = if a.ex.rescue_stamp.is_some() {
+        a.ex.rescue_close.clone().map(|r| (a.prober_t as usize, r))
+    } else {
+        None
+    };
+    let mut syn = Vec::new();
+    let nthreads = a.prober_t as usize + 1;
+    match explain(
+        a.ops,
+        nthreads,
+        cap,
+        a.ex.live_send.max(0) as u32,
+        a.ex.live_recv.max(0) as u32,
+        &busy,
+        rescue,
+        &mut syn,
+    ) {
+        Verdict::Explained(n) => {
+            f.add("explained", 1);
+            f.add("explain_states", n.min(u32::MAX as usize) as u32);
+            // concurrency actually mattered?
+            let overlapping = a.ops.iter().enumerate().any(|(i, x)| {
+                a.ops.iter().enumerate().any(|(j, y)| {
+                    i != j && x.t != y.t && x.res != Res::Skip && y.res != Res::Skip && !x.implicit && !y.implicit && x.inv < retx(y) && y.inv < retx(x)
+                })
+            });
+            if overlapping {
+                f.add("overlapping_ops", 1);
+            }
+        }
+        Verdict::NoExplanation(d) => v.push(Viol {
+            pred: "not_explainable_by_atomic_channel",
+            op: None,
+            detail: d,
+        }),
+        Verdict::Inconclusive(_) => f.add("explain_inconclusive", 1),
     }
 }
